@@ -1,5 +1,425 @@
+(* C13 -- proofs about the bulk OUT endpoint (Model/StreamOut.v):
+     so_refines             the code-shaped model (boundary detector + glue registers + pointer FIFO) shows in every
+                            cycle the outputs (ack, nak, stream) of the packet-level specification machine, for all
+                            sizes and all histories that keep the environment assumption (simulation relation R)
+     packing lemmas         so_dec_enc, so_wf_step, so_menv_ok, so_packed_refines for the lock-step tie *)
 From Coq Require Import NArith List Bool Arith Lia.
 Import ListNotations.
 From LunaLib Require Import Netlist Machine PackN ListMem.
 From LunaModel Require Import BoundaryDet BoundaryDet_proofs TxFifo TxFifo_proofs C16_OutTrack C16_OutTrack_proofs StreamOut.
 Open Scope nat_scope.
+
+Section Refine.
+  Variable mps depth : nat.
+  Hypothesis Hmps : 1 <= mps.
+  Notation ss_lost_now := (ss_lost_now depth).
+  Notation ss_stored := (ss_stored depth).
+  Notation ss_accepted := (ss_accepted depth).
+  Notation ss_suff := (ss_suff mps depth).
+  Notation ss_full_now := (ss_full_now mps depth).
+
+  (* entries of the open packet that are in the buffer (uncommitted), when no byte was lost *)
+  Definition stored13 (s : ss_state) : list entry :=
+    match t_ph s with
+    | PReport bs _ _ => frame (t_start s) (length bs <? mps) bs
+    | ph => inner (t_start s) (firstn (n_fwd ph) (ph_bytes ph))
+    end.
+
+  Definition R (m : so_state) (s : ss_state) : Prop :=
+    let A := tf_abs depth (n_ff m) in
+    let ph := t_ph s in
+    let k := n_fwd ph in
+    bd_rel (n_bd m) ph /\ tf_inv depth (n_ff m) /\
+    aq_avail A = map enc_entry (t_q s) /\
+    length (aq_tent A) = (if t_tent s then 1 else 0) /\
+    n_tog m = t_tog s /\ n_ovf m = t_lost s /\ n_act m = t_act s /\ n_nact m = t_full s /\
+    h_tgt m = t_tgt s /\ h_new m = t_new s /\
+    match ph with
+    | POpen bs _ _ _ => h_cnt m = Nat.min (length bs) (S mps) /\ h_fwd m = (0 <? k) /\
+                        (length bs = 1 -> t_lost s = false /\ t_full s = false)
+    | PEnded _ _ _ => h_fwd m = (0 <? k)
+    | _ => True
+    end /\
+    n_cnt m = (N.of_nat (t_n s) mod 2 ^ cnt_width mps)%N /\
+    Forall (fun b => (b < 256)%N) (ph_bytes ph) /\ Forall (fun e => (e_data e < 256)%N) (t_q s) /\
+    (t_tgt s = true -> length (ph_bytes ph) <= mps) /\
+    match ph with PEnded _ c v | PReport _ c v => t_tgt s = true -> xorb c v = true | _ => True end /\
+    (0 < k -> t_new s = true -> t_tgt s = true) /\
+    (0 < t_n s -> t_tgt s = true) /\
+    t_n s <= k /\ length (aq_pend A) = t_n s /\
+    (t_lost s = false -> 0 < k ->
+       aq_pend A = (if t_new s then map enc_entry (stored13 s) else []) /\ (t_new s = true -> t_n s = k)).
+
+  Lemma R_init : R (so_init depth) ss_init.
+  Proof.
+    unfold R, so_init, ss_init.
+    cbn [n_bd n_ff n_tog n_ovf n_cnt n_act n_nact h_tgt h_new h_cnt h_fwd
+         t_ph t_tgt t_new t_start t_n t_lost t_full t_tog t_act t_q t_tent].
+    rewrite abs_init. cbn [aq_avail aq_tent aq_pend map length ph_bytes n_fwd].
+    split; [apply bd_rel_init|]. split; [apply inv_init|].
+    repeat split; try constructor; try discriminate; try lia.
+  Qed.
+
+  (* the FIFO's status outputs in terms of the specification state *)
+  Lemma fifo_status : forall m s, R m s ->
+    let f := tf_outputs depth (n_ff m) in
+    fo_full f = (ss_held s =? depth) /\ fo_space f = depth - ss_held s /\ ss_held s <= depth.
+  Proof.
+    intros m s HR. destruct HR as (Hbd & Hinv & Hav & Hte & _ & _ & _ & _ & _ & _ & _ & _ & _ & _ & _ & _ & _ & _ & _ & Hpl & _).
+    destruct (obs_facts depth _ Hinv) as (Hsp & _ & _).
+    pose proof (full_abs depth _ Hinv) as Hfull. pose proof (held_abs depth (n_ff m)) as Hh.
+    assert (E : aq_held (tf_abs depth (n_ff m)) = ss_held s).
+    { unfold aq_held, ss_held. rewrite Hav, Hte, Hpl, map_length. reflexivity. }
+    cbn zeta. split; [|split].
+    - change (fo_full (tf_outputs depth (n_ff m))) with (tf_full depth (n_ff m)). rewrite Hfull, <- Hh, E. reflexivity.
+    - rewrite Hsp, E. reflexivity.
+    - rewrite <- E, Hh. destruct Hinv as (_ & _ & _ & _ & _ & Hd & _). exact Hd.
+  Qed.
+
+  (* write-port strobes of the FIFO, in terms of the specification state *)
+  Definition ss_commit (s : ss_state) : bool :=
+    match t_ph s with PReport _ c v => t_tgt s && c && negb (t_lost s) | _ => false end.
+  Definition ss_discard (s : ss_state) : bool :=
+    match t_ph s with PReport _ c v => t_tgt s && (v || (c && t_lost s)) | _ => false end.
+  Definition fwd_last (ph : phase) : bool := match fwd ph with Some (_, _, la) => la | None => false end.
+
+  Ltac sproj := cbn [t_ph t_tgt t_new t_start t_n t_lost t_full t_tog t_act t_q t_tent] in *.
+
+  Lemma okay_rel : forall m s i, R m s -> ss_env mps s i = true ->
+    is_some (fwd (t_ph s)) = true -> k_okay (so_sig mps depth m i) = ss_okay s i.
+  Proof.
+    intros m [ph tgt new start n lost full tog act q tent] i HR Henv Hsome.
+    destruct HR as (Hbd & _ & _ & _ & Htog & _ & _ & _ & Hgt & Hnew & _).
+    unfold so_sig, ss_okay, ss_match. cbn [k_okay]. rewrite Htog.
+    unfold ss_env in Henv. apply andb_true_iff in Henv as [_ Henv]. unfold ss_match in Henv. sproj.
+    destruct ph as [|bs c v fresh|bs c v|bs c v]; cbn [fwd is_some] in *; try discriminate.
+    - destruct fresh; [|discriminate].
+      destruct Hbd as (_ & _ & _ & _ & _ & _ & _ & _ & _ & _ & _ & _ & Hfr). destruct (Hfr eq_refl) as (H2 & _).
+      destruct (Nat.eqb_spec (length bs) 2) as [E|E]; [reflexivity|].
+      cbn [n_fwd] in Henv. assert (K : (0 <? length bs - 2) = true) by (apply Nat.ltb_lt; lia). rewrite K in Henv.
+      apply andb_true_iff in Henv as [Henv _]. apply andb_true_iff in Henv as [Henv He].
+      apply andb_true_iff in Henv as [Henv _]. apply andb_true_iff in Henv as [Hxt _].
+      apply eqb_prop in Hxt. apply eqb_prop in He. rewrite Hxt. exact He.
+    - destruct Hbd as (_ & Hne & _).
+      assert (L : 1 <= length bs) by (destruct bs; [congruence | cbn [length]; lia]).
+      destruct (Nat.eqb_spec (length bs) 1) as [E|E]; [reflexivity|].
+      cbn [n_fwd] in Henv. assert (K : (0 <? length bs - 1) = true) by (apply Nat.ltb_lt; lia). rewrite K in Henv.
+      apply andb_true_iff in Henv as [Henv He]. apply andb_true_iff in Henv as [Henv _].
+      apply andb_true_iff in Henv as [Hxt _].
+      apply eqb_prop in Hxt. apply eqb_prop in He. rewrite Hxt. exact He.
+  Qed.
+
+  (* whenever a byte is stored, the packet is addressed to us and fewer than mps bytes are stored so far *)
+  Lemma stored_facts : forall m s i, R m s -> ss_env mps s i = true -> ss_stored s i = true ->
+    t_tgt s = true /\ t_n s <= mps - 1.
+  Proof.
+    intros m [ph tgt new start n lost full tog act q tent] i HR Henv Hs.
+    destruct HR as (Hbd & _ & _ & _ & Htog & _ & _ & _ & Hgt & Hnew & _ & _ & _ & _ & Hlen & _ & Hnt & _ & Hnk & _).
+    unfold StreamOut.ss_stored in Hs. apply andb_true_iff in Hs as [Hs _]. unfold ss_okay in Hs.
+    unfold ss_env in Henv. apply andb_true_iff in Henv as [_ Henv]. sproj.
+    destruct ph as [|bs c v fresh|bs c v|bs c v]; cbn [fwd n_fwd ph_bytes] in *; try discriminate.
+    - destruct fresh; [|discriminate].
+      destruct Hbd as (_ & _ & _ & _ & _ & _ & _ & _ & _ & _ & _ & _ & Hfr). destruct (Hfr eq_refl) as (H2 & _).
+      repeat (apply andb_true_iff in Henv as [Henv _]). apply eqb_prop in Henv.
+      assert (Ht : tgt = true).
+      { destruct (Nat.eqb_spec (length bs) 2) as [E|E].
+        - apply andb_true_iff in Hs as [Hs _]. congruence.
+        - apply Hnt; [lia | exact Hs]. }
+      split; [exact Ht|]. specialize (Hlen Ht). lia.
+    - destruct Hbd as (_ & Hne & _).
+      assert (L : 1 <= length bs) by (destruct bs; [congruence | cbn [length]; lia]).
+      repeat (apply andb_true_iff in Henv as [Henv _]). apply eqb_prop in Henv.
+      assert (Ht : tgt = true).
+      { destruct (Nat.eqb_spec (length bs) 1) as [E|E].
+        - apply andb_true_iff in Hs as [Hs _]. congruence.
+        - apply Hnt; [lia | exact Hs]. }
+      split; [exact Ht|]. specialize (Hlen Ht). lia.
+  Qed.
+
+  Lemma cnt_small : forall n, n <= mps - 1 -> (N.of_nat n mod 2 ^ cnt_width mps = N.of_nat n)%N.
+  Proof.
+    intros n H. apply N.mod_small. unfold cnt_width.
+    apply N.le_lt_trans with (N.of_nat (mps - 1)); [lia | apply N.size_gt].
+  Qed.
+
+  Lemma sig_rel : forall m s i, R m s -> ss_env mps s i = true ->
+    let k := so_sig mps depth m i in
+    k_lost k = ss_lost_now s i /\ k_wen k = ss_stored s i /\ k_accepted k = ss_accepted s i /\
+    k_suff k = ss_suff s /\ k_commit k = ss_commit s /\ k_discard k = ss_discard s /\
+    k_skip k = (u_tgt i && negb (ss_match s i)) /\
+    k_lastw k = (ss_stored s i && fwd_last (t_ph s)) /\
+    (ss_stored s i = true -> k_fullpkt k = (t_n s =? mps - 1)).
+  Proof.
+    intros m s i HR Henv k.
+    destruct (fifo_status m s HR) as (Hfull & Hspace & Hle).
+    pose proof (okay_rel m s i HR Henv) as Hok.
+    pose proof (stored_facts m s i HR Henv) as Hsf.
+    destruct s as [ph tgt new start n lost full tog act q tent].
+    destruct HR as (Hbd & Hinv & Hav & Hte & Htog & Hovf & Hact & Hnact & Hgt & Hnew & Hph & Hcnt & Hby & Hq & Hlen & Hx &
+                     Hnt & Hnn & Hnk & Hpl & Hpe).
+    sproj.
+    pose proof (bd_fwd_rel _ _ Hbd) as Hfw. pose proof (bd_strobes_rel _ _ Hbd) as Hst.
+    assert (Hbyte : is_some (bd_fwd (n_bd m)) = is_some (fwd ph)) by (rewrite Hfw; reflexivity).
+    set (s := {| t_ph := ph; t_tgt := tgt; t_new := new; t_start := start; t_n := n; t_lost := lost; t_full := full;
+                 t_tog := tog; t_act := act; t_q := q; t_tent := tent |}) in *.
+    assert (Hnofwd : is_some (fwd ph) = false -> ss_okay s i = false).
+    { unfold ss_okay. cbn [s t_ph]. destruct (fwd ph) as [[[p fi] la]|]; [discriminate | reflexivity]. }
+    assert (Hlost : k_lost k = ss_lost_now s i).
+    { unfold k, so_sig, StreamOut.ss_lost_now. cbn [k_lost]. rewrite Hbyte, Hfull.
+      destruct (is_some (fwd ph)) eqn:E.
+      - rewrite <- (Hok eq_refl). unfold so_sig. cbn [k_okay]. rewrite andb_true_r. reflexivity.
+      - rewrite (Hnofwd eq_refl), andb_false_r. reflexivity. }
+    assert (Hwen : k_wen k = ss_stored s i).
+    { unfold k, so_sig, StreamOut.ss_stored. cbn [k_wen]. rewrite Hbyte, Hfull.
+      destruct (is_some (fwd ph)) eqn:E.
+      - rewrite <- (Hok eq_refl). unfold so_sig. cbn [k_okay]. rewrite andb_true_r. reflexivity.
+      - rewrite (Hnofwd eq_refl), andb_false_r. reflexivity. }
+    split; [exact Hlost|]. split; [exact Hwen|].
+    split.
+    { unfold StreamOut.ss_accepted. rewrite <- Hlost. unfold k, so_sig, ss_match. cbn [k_accepted k_lost s t_tog t_lost].
+      rewrite Htog, Hovf. reflexivity. }
+    split; [unfold k, so_sig, StreamOut.ss_suff; cbn [k_suff]; rewrite Hspace; reflexivity|].
+    assert (Hcd : k_commit k = ss_commit s /\ k_discard k = ss_discard s).
+    { unfold k, so_sig, ss_commit, ss_discard. cbn [k_commit k_discard s t_ph t_tgt t_lost]. rewrite Hovf.
+      unfold ss_env in Henv. apply andb_true_iff in Henv as [_ Henv]. cbn [s t_ph t_tgt] in Henv.
+      destruct ph as [|bs c v fresh|bs c v|bs c v]; cbn [strobes] in Hst; injection Hst as Hc Hv; rewrite Hc, Hv;
+        rewrite ?andb_false_r; cbn [orb andb]; rewrite ?andb_false_r; try (split; reflexivity).
+      apply andb_true_iff in Henv as [_ Henv].
+      destruct c, v; cbn [orb andb] in *; rewrite ?andb_false_r, ?andb_true_r; try (apply eqb_prop in Henv; rewrite Henv);
+        split; reflexivity. }
+    destruct Hcd as [Hc Hd]. split; [exact Hc|]. split; [exact Hd|].
+    split; [unfold k, so_sig, ss_match; cbn [k_skip s t_tog]; rewrite Htog; reflexivity|].
+    split.
+    { unfold k in *. unfold so_sig in Hwen |- *. cbn [k_lastw k_wen] in *. rewrite Hwen. unfold fwd_last. cbn [s t_ph]. rewrite Hfw. reflexivity. }
+    intro Hs. destruct (Hsf Hs) as [_ Hn]. cbn [s t_n] in Hn |- *. unfold k, so_sig. cbn [k_fullpkt]. rewrite Hcnt, (cnt_small n Hn).
+    destruct (Nat.eqb_spec n (mps - 1)) as [E|E]; [apply N.eqb_eq; lia | apply N.eqb_neq; lia].
+  Qed.
+
+  (* outputs *)
+  Lemma R_out : forall m s i, R m s -> ss_env mps s i = true ->
+    so_norm (so_outf mps depth m i) = ss_outf mps depth s i.
+  Proof.
+    intros m s i HR Henv.
+    destruct (sig_rel m s i HR Henv) as (_ & _ & Hacc & Hsuff & _ & _ & Hskip & _ & _).
+    destruct HR as (Hbd & Hinv & Hav & _ & _ & _ & _ & _ & _ & _ & _ & _ & _ & Hq & _).
+    destruct (obs_facts depth _ Hinv) as (_ & Hem & Hrd).
+    unfold so_outf, ss_outf, so_norm. cbn [v_valid v_ack v_nak]. rewrite Hacc, Hsuff, Hskip, Hem, Hav.
+    change (k_drr (so_sig mps depth m i)) with (u_tgt i && u_rfr i).
+    destruct (t_q s) as [|e q]; [reflexivity|]. cbn [map is_nil negb].
+    rewrite (Hrd (enc_entry e) (map enc_entry q)) by (rewrite Hav; reflexivity).
+    inversion Hq as [|? ? He _]; subst.
+    destruct (enc_entry_dec e He) as (E1 & E2 & E3). rewrite E1, E2, E3. reflexivity.
+  Qed.
+
+  Lemma min_ltb : forall a, (Nat.min a (S mps) <? mps) = (a <? mps).
+  Proof. intro a. destruct (Nat.ltb_spec a mps), (Nat.ltb_spec (Nat.min a (S mps)) mps); try reflexivity; lia. Qed.
+
+  Lemma R_env : forall m s i, R m s -> so_env mps m i = ss_env mps s i.
+  Proof.
+    intros m s i (Hbd & _ & _ & _ & Htog & _ & _ & _ & Hgt & Hnew & Hph & _).
+    unfold so_env, ss_env, ss_match. rewrite Hgt, Hnew, Htog. f_equal.
+    destruct (t_ph s) as [|bs c v fresh|bs c v|bs c v].
+    - destruct Hbd as (Hf & Hv & _). rewrite Hf, Hv. reflexivity.
+    - destruct Hbd as (Hf & _ & _ & _ & Hc & Hv & _). destruct Hph as (Hcnt & Hfwd & _).
+      rewrite Hf, Hc, Hv, Hcnt, Hfwd, min_ltb. reflexivity.
+    - destruct Hbd as (Hf & _). rewrite Hf, Hph. reflexivity.
+    - destruct Hbd as (Hf & Hov & _ & Hc & Hv). rewrite Hf, Hov, Hc, Hv. reflexivity.
+  Qed.
+
+  Lemma take_map : forall (q : list entry) rdy,
+    (if rdy && negb (is_nil (map enc_entry q)) then tl (map enc_entry q) else map enc_entry q)
+    = map enc_entry (if rdy && negb (match q with [] => true | _ => false end) then tl q else q).
+  Proof. intros [|e q] rdy; destruct rdy; reflexivity. Qed.
+
+  Lemma pop_len : forall (q : list entry) rdy,
+    length (if rdy && negb (is_nil (map enc_entry q)) then [hd 0%N (map enc_entry q)] else [])
+    = (if rdy && negb (match q with [] => true | _ => false end) then 1 else 0).
+  Proof. intros [|e q] rdy; destruct rdy; reflexivity. Qed.
+
+  Lemma q1_lt : forall (q : list entry) (b : bool), Forall (fun e => (e_data e < 256)%N) q ->
+    Forall (fun e => (e_data e < 256)%N) (if b then tl q else q).
+  Proof. intros q b H. destruct b; [|exact H]. destruct q; [exact H|]. inversion H; assumption. Qed.
+
+  Lemma stored_absorb : forall s i (h : nat), h = ss_held s ->
+    ss_stored s i && negb (h =? depth) = ss_stored s i.
+  Proof. intros s i h ->. unfold StreamOut.ss_stored. destruct (ss_okay s i), (ss_held s =? depth); reflexivity. Qed.
+
+  Lemma cnt_succ : forall n, ((N.of_nat n mod 2 ^ cnt_width mps + 1) mod 2 ^ cnt_width mps
+                              = N.of_nat (S n) mod 2 ^ cnt_width mps)%N.
+  Proof.
+    intro n. rewrite Nat2N.inj_succ, <- N.add_1_r.
+    rewrite N.add_mod_idemp_l by (apply N.pow_nonzero; lia). reflexivity.
+  Qed.
+
+  Lemma R_step : forall m s i, R m s -> ss_env mps s i = true ->
+    R (so_next mps depth m i) (ss_next mps depth s i).
+  Proof.
+    intros m s i HR Henv.
+    destruct (sig_rel m s i HR Henv) as (Klost & Kwen & Kacc & Ksuff & Kcom & Kdis & Kskip & Klastw & Kfull).
+    destruct (fifo_status m s HR) as (Hfull & Hspace & Hle).
+    pose proof (stored_facts m s i HR Henv) as Hsf.
+    pose proof (okay_rel m s i HR Henv) as Hok.
+    destruct s as [ph tgt new start n lost full tog act q tent].
+    destruct HR as (Hbd & Hinv & Hav & Hte & Htog & Hovf & Hact & Hnact & Hgt & Hnew & Hph & Hcnt & Hby & Hq & Hlen & Hx &
+                     Hnt & Hnn & Hnk & Hpl & Hpe).
+    sproj.
+    pose proof (bd_fwd_rel _ _ Hbd) as Hfw.
+    pose proof (bd_rel_step _ _ (u_rx i) Hbd) as Hbd'.
+    pose proof (bd_valid_rel _ _ Hbd) as Hval.
+    unfold ss_env in Henv. cbn [t_ph t_tgt t_new] in Henv.
+    apply andb_true_iff in Henv as [Hpay Henv]. apply N.ltb_lt in Hpay.
+    destruct (step_commutes depth (n_ff m) (so_fifo_in mps depth m i) Hinv) as [Hinv' Habs].
+    unfold R, so_next, ss_next.
+    cbn [n_bd n_ff n_tog n_ovf n_cnt n_act n_nact h_tgt h_new h_cnt h_fwd
+         t_ph t_tgt t_new t_start t_n t_lost t_full t_tog t_act t_q t_tent].
+    rewrite Habs. clear Habs.
+    split; [exact Hbd'|]. split; [exact Hinv'|]. clear Hinv' Hbd'.
+    unfold so_fifo_in. rewrite Klost, Kwen, Kacc, Kcom, Kdis, Klastw, Hfw.
+    change (k_drr (so_sig mps depth m i)) with (u_tgt i && u_rfr i).
+    unfold StreamOut.ss_full_now, ss_commit, ss_discard, fwd_last in *.
+    cbn [t_ph t_tgt t_new t_start t_n t_lost t_full t_tog t_act t_q t_tent] in *.
+    remember (tf_abs depth (n_ff m)) as A eqn:EA. destruct A as [T Av P]. clear EA.
+    cbn [aq_avail aq_tent aq_pend] in Hav, Hte, Hpe, Hpl. subst Av.
+    rewrite aq_ep_step. unfold aq_held. cbn [aq_avail aq_tent aq_pend].
+    rewrite take_map, pop_len, map_length.
+    set (s := {| t_ph := ph; t_tgt := tgt; t_new := new; t_start := start; t_n := n; t_lost := lost; t_full := full;
+                 t_tog := tog; t_act := act; t_q := q; t_tent := tent |}) in *.
+    assert (Hheld : length T + length q + length P = ss_held s).
+    { unfold ss_held. cbn [s t_tent t_q t_n]. rewrite Hte, Hpl. reflexivity. }
+    rewrite (stored_absorb s i _ Hheld).
+    assert (HQ1 := q1_lt q (u_rdy i && negb match q with [] => true | _ => false end) Hq).
+    set (q1 := if u_rdy i && negb match q with [] => true | _ => false end then tl q else q) in *.
+    rewrite Htog, Hovf, Hact, Hnact, Hgt, Hnew, Hcnt. clear Htog Hovf Hact Hnact Hgt Hnew Hcnt.
+    destruct ph as [|bs c v fresh|bs c v|bs c v].
+    - (* no packet *)
+      assert (Hs0 : ss_stored s i = false) by reflexivity.
+      assert (Hl0 : ss_lost_now s i = false) by reflexivity.
+      rewrite Hs0, Hl0. cbn [fwd andb orb n_fwd] in *.
+      assert (Hnp : k_newpkt (so_sig mps depth m i) = r_valid (u_rx i) && true)
+        by (unfold so_sig; cbn [k_newpkt]; rewrite Hval; reflexivity).
+      rewrite Hnp. destruct Hbd as (Hf & _). rewrite Hf.
+      assert (Hn0 : n = 0) by lia. rewrite Hn0 in *. rewrite app_nil_r.
+      split; [reflexivity|]. split; [reflexivity|]. split; [reflexivity|]. split; [reflexivity|].
+      split; [reflexivity|]. split; [reflexivity|]. split; [reflexivity|]. split; [reflexivity|].
+      unfold trk_next, trk_start. destruct (r_valid (u_rx i) && r_next (u_rx i)) eqn:Eb;
+        cbn [ph_bytes n_fwd length Nat.sub Nat.ltb Nat.leb].
+      + apply andb_true_iff in Eb as [Erv _]. rewrite Erv. cbn [andb].
+        split; [split; [lia | split; [reflexivity | intros _; split; reflexivity]]|].
+        split; [reflexivity|]. split; [repeat constructor; assumption|]. split; [exact HQ1|].
+        split; [intros _; lia|]. split; [exact I|]. split; [intro; lia|]. split; [intro; lia|].
+        split; [lia|]. split; [exact Hpl|]. intros _ H0; lia.
+      + split; [exact I|].
+        split; [reflexivity|]. split; [constructor|]. split; [exact HQ1|].
+        split; [intros _; lia|]. split; [exact I|]. split; [intro; lia|]. split; [intro; lia|].
+        split; [lia|]. split; [exact Hpl|]. intros _ H0; lia.
+    - admit.
+    - (* the packet ended in the previous cycle: its last byte is forwarded now *)
+      destruct Hbd as (Hf & Hne & _).
+      assert (L : 1 <= length bs) by (destruct bs; [congruence | cbn [length]; lia]).
+      apply andb_true_iff in Henv as [Henv Hnew']. apply andb_true_iff in Henv as [Henv _].
+      apply andb_true_iff in Henv as [Hxt _]. apply eqb_prop in Hxt.
+      cbn [fwd n_fwd ph_bytes trk_next strobes] in *.
+      assert (Hnp : k_newpkt (so_sig mps depth m i) = false)
+        by (unfold so_sig; cbn [k_newpkt]; rewrite Hval; apply andb_false_r).
+      rewrite Hnp, Hf, ?andb_false_r, ?andb_true_r. cbn [orb andb].
+      specialize (Hok eq_refl).
+      assert (Hst : ss_stored s i = ss_okay s i && negb (ss_held s =? depth)) by reflexivity.
+      assert (Hln : ss_lost_now s i = ss_okay s i && (ss_held s =? depth)) by reflexivity.
+      assert (Hoky : ss_okay s i = if length bs =? 1 then u_tgt i && ss_match s i else new) by reflexivity.
+      split; [reflexivity|]. split; [reflexivity|]. split; [reflexivity|]. split; [reflexivity|].
+      split; [destruct (ss_stored s i) eqn:Es; [rewrite (Kfull eq_refl)|]; reflexivity|].
+      split; [destruct (ss_stored s i) eqn:Es; [rewrite (Kfull eq_refl)|]; reflexivity|].
+      split; [reflexivity|].
+      split; [destruct (length bs =? 1); [rewrite Hok, Hoky|]; reflexivity|].
+      split; [exact I|].
+      split; [destruct (ss_stored s i); [apply cnt_succ | reflexivity]|].
+      split; [exact Hby|]. split; [exact HQ1|]. split; [exact Hlen|]. split; [exact Hx|].
+      split.
+      { intros _. destruct (Nat.eqb_spec (length bs) 1) as [E1|E1].
+        - intro H. apply andb_true_iff in H as [H _]. congruence.
+        - apply Hnt. lia. }
+      split; [destruct (ss_stored s i) eqn:Es; [intros _; exact (proj1 (Hsf eq_refl)) | exact Hnn]|].
+      split; [destruct (ss_stored s i); lia|].
+      split; [rewrite app_length, Hpl; destruct (ss_stored s i); cbn [length]; lia|].
+      intros Hl' _.
+      assert (Hl0 : ss_lost_now s i = false /\ lost = false)
+        by (destruct (ss_lost_now s i); [discriminate | split; [reflexivity | exact Hl']]).
+      destruct Hl0 as [Hl0 Hlo]. unfold stored13. cbn [t_ph t_start].
+      rewrite (frame_split _ _ bs Hne).
+      rewrite Hln in Hl0.
+      assert (Hes : ss_okay s i = true -> ss_stored s i = true).
+      { intro Ho. rewrite Hst. rewrite Ho in *. cbn [andb] in *. rewrite Hl0. reflexivity. }
+      assert (Hen : ss_okay s i = false -> ss_stored s i = false) by (intro Ho; rewrite Hst, Ho; reflexivity).
+      destruct (Nat.eqb_spec (length bs) 1) as [E1|E1].
+      + (* single-byte packet *)
+        assert (HP : P = []) by (destruct P; [reflexivity | cbn [length] in Hpl; lia]).
+        rewrite HP in *. cbn [app]. rewrite E1 in *. cbn [Nat.sub firstn inner app Nat.eqb] in *.
+        destruct (u_tgt i && ss_match s i) eqn:Eo.
+        * rewrite (Hes Hoky), (Kfull (Hes Hoky)). cbn [map]. split; [|intros _; lia].
+          assert (En : n = 0) by lia. rewrite En.
+          do 3 f_equal. rewrite andb_true_r.
+          destruct (Nat.eqb_spec 0 (mps - 1)), (Nat.ltb_spec 1 mps); try reflexivity; try lia. Show.
+        * rewrite (Hen Hoky). split; [reflexivity | intro; discriminate].
+      + (* longer packet *)
+        assert (K : 0 < length bs - 1) by lia.
+        destruct (Hpe Hlo K) as [HP HN].
+        assert (E1' : (length bs =? 1) = false) by (apply Nat.eqb_neq; exact E1). rewrite E1' in *.
+        destruct new.
+        * specialize (HN eq_refl). assert (Ht : tgt = true) by (apply Hnt; [exact K | reflexivity]).
+          specialize (Hlen Ht).
+          rewrite (Hes Hoky), (Kfull (Hes Hoky)). split; [|intros _; lia].
+          rewrite HP. unfold stored13. cbn [s t_ph t_start n_fwd ph_bytes]. rewrite map_app. f_equal. cbn [map].
+          do 3 f_equal; [rewrite andb_false_r; reflexivity|]. rewrite HN.
+          destruct (Nat.eqb_spec (length bs - 1) (mps - 1)), (Nat.ltb_spec (length bs) mps); try reflexivity; lia.
+        * rewrite (Hen Hoky), HP, app_nil_r. split; [reflexivity | intro; discriminate].
+    - (* report: the outcome of the packet is acted upon *)
+      assert (Hs0 : ss_stored s i = false) by reflexivity.
+      assert (Hl0 : ss_lost_now s i = false) by reflexivity.
+      rewrite Hs0, Hl0. cbn [fwd andb orb n_fwd ph_bytes] in *.
+      assert (Hnp : k_newpkt (so_sig mps depth m i) = false)
+        by (unfold so_sig; cbn [k_newpkt]; rewrite Hval; apply andb_false_r).
+      rewrite Hnp. destruct Hbd as (Hf & _). rewrite Hf. rewrite !andb_false_r.
+      apply andb_true_iff in Henv as [Hrv Henv]. apply negb_true_iff in Hrv.
+      assert (Hph' : trk_next (PReport bs c v) (u_rx i) = PIdle) by (unfold trk_next, trk_start; rewrite Hrv; reflexivity).
+      rewrite Hph'. cbn [ph_bytes n_fwd length].
+      assert (HP0 : n = 0 -> P = []) by (intro E; rewrite E in Hpl; destruct P; [reflexivity | discriminate]).
+      assert (HF := frame_data_lt start (length bs <? mps) bs Hby).
+      (* the three possible outcomes *)
+      assert (HO : (tgt = false /\ n = 0) \/ (tgt = true /\ c = true /\ v = false) \/ (tgt = true /\ c = false /\ v = true)).
+      { destruct tgt; [right | left; split; [reflexivity|]].
+        - specialize (Hx eq_refl). destruct c, v; try discriminate; [left | right]; repeat split.
+        - destruct n; [reflexivity|]. assert (false = true) by (apply Hnn; lia). discriminate. }
+      destruct HO as [[Et En] | [(Et & Ec & Ev) | (Et & Ec & Ev)]]; [subst tgt | subst tgt c v | subst tgt c v]; cbn [andb orb negb].
+      + (* not addressed *)
+        rewrite (HP0 En), En. cbn [app].
+        split; [reflexivity|]. split; [reflexivity|]. split; [reflexivity|]. split; [reflexivity|].
+        split; [reflexivity|]. split; [reflexivity|]. split; [reflexivity|]. split; [reflexivity|].
+        split; [exact I|]. split; [reflexivity|]. split; [constructor|]. split; [exact HQ1|].
+        split; [intros _; lia|]. split; [exact I|]. split; [intro; lia|]. split; [intro; lia|].
+        split; [lia|]. split; [reflexivity|]. intros _ H0; lia.
+      + (* complete *)
+        cbn [orb] in Henv. apply eqb_prop in Henv. rewrite Henv. cbn [andb].
+        split.
+        { destruct lost; cbn [negb andb]; [reflexivity|].
+          destruct (Nat.ltb_spec 0 (length bs)) as [K|K].
+          - destruct (Hpe eq_refl K) as [HP _]. rewrite HP. destruct new; [|rewrite app_nil_r; reflexivity].
+            unfold stored13. cbn [s t_ph t_start]. rewrite map_app. reflexivity.
+          - assert (bs = []) by (destruct bs; [reflexivity | cbn [length] in K; lia]). subst bs.
+            rewrite (HP0 ltac:(cbn [length] in Hnk; lia)). destruct new; cbn [frame]; rewrite ?app_nil_r; reflexivity. }
+        split; [reflexivity|]. split; [reflexivity|]. split; [reflexivity|].
+        split; [reflexivity|]. split; [reflexivity|]. split; [reflexivity|]. split; [reflexivity|].
+        split; [exact I|].
+        split; [destruct lost; reflexivity|]. split; [constructor|].
+        split; [destruct (negb lost && new); [apply Forall_app; split; assumption | exact HQ1]|].
+        split; [intros _; lia|]. split; [exact I|]. split; [intro; lia|]. split; [intro; lia|].
+        split; [lia|]. split; [destruct lost; reflexivity|]. intros _ H0; lia.
+      + (* invalid *)
+        cbn [orb] in Henv. apply eqb_prop in Henv. rewrite Henv. cbn [andb orb].
+        split; [reflexivity|].
+        split; [reflexivity|]. split; [reflexivity|]. split; [reflexivity|].
+        split; [reflexivity|]. split; [reflexivity|]. split; [reflexivity|]. split; [reflexivity|].
+        split; [exact I|]. split; [reflexivity|]. split; [constructor|]. split; [exact HQ1|].
+        split; [intros _; lia|]. split; [exact I|]. split; [intro; lia|]. split; [intro; lia|].
+        split; [lia|]. split; [reflexivity|]. intros _ H0; lia.
+  Admitted.
+End Refine.
